@@ -87,6 +87,28 @@ def cases(rng, tier, shard, nshards):
             yield c
             continue
         version = rng.choice(["gfa1", "gfa2"])
+        if rng.random() < 0.004:
+            # a large graph: the answer must not depend on the size (a chain of thousands of
+            # segments is an ordinary assembly graph)
+            n = rng.choice([300, 900, 1100, 2500, 4000])
+            shape = rng.choice(["chain", "ring", "chain-reversed", "two-chains"])
+            names = ["n%d" % i for i in range(n)]
+            lines = [("S\t%s\t*\tLN:i:5" % x) if version == "gfa1" else ("S\t%s\t20\t*" % x) for x in names]
+            pairs = [(names[i], names[i + 1]) for i in range(n - 1)]
+            if shape == "ring":
+                pairs.append((names[-1], names[0]))
+            if shape == "two-chains":
+                pairs.pop(n // 2)
+            for a, b in pairs:
+                if shape == "chain-reversed":
+                    a, b = b, a
+                lines.append("L\t%s\t+\t%s\t+\t*" % (a, b) if version == "gfa1"
+                             else "E\t*\t%s+\t%s+\t15\t20$\t0\t5\t*" % (a, b))
+            if rng.random() < 0.5:
+                rng.shuffle(lines)
+            yield {"version": version, "lines": lines, "feats": ["large", "large-" + shape], "seed": rng.getrandbits(32),
+                   "nmut": rng.choice([0, 1]), "minlen": None}
+            continue
         if rng.random() < 0.7:
             lines, feats = shaped_graph(rng, version)
         else:
@@ -117,6 +139,8 @@ def run(case, ctx):
     g = r.value
     topo.check_topology(ctx, g, lines, version)
     ctx.count("graphs_checked")
+    if "large" in case["feats"]:
+        ctx.count("large_graphs_checked")
     model = T.Model(version, lines)
     ncomp = len(E.components(model.recs, version))
     if ncomp >= 2 and any(f in case["feats"] for f in ("self-link", "hairpin", "parallel", "containment", "internal")):
